@@ -64,6 +64,25 @@ CHECKS["C15"] = dict(
               "replay of models",
     design="2/C15")
 
+CHECKS["C19"] = dict(
+    level="other",
+    text="The real Integrator.compute_time_step with its helpers runs on "
+         "model particle arrays (1-2 arrays, 0-2 real + 0-1 ghost particles, "
+         "every subset of the optional criterion properties) holding "
+         "exact-real symbolic values; on every path z3 decides that the "
+         "returned value equals the documented minimum (dt_adapt override, "
+         "cfl/force/viscous formula with hmin the true minimum h) and that "
+         "None is returned exactly when no criterion applies; "
+         "Solver._compute_timestep's fallback is checked the same way.",
+    note="ParticleArray/carray are models (the carray minimum is the true "
+         "minimum over all particles, 0.0 when empty, as cyarray does after "
+         "update_min_max); numpy max/min/isinf shadowed; floats as reals; "
+         "replay builds the working tree and uses the real ParticleArray",
+    technique="symbolic execution of the python source on z3 Real proxies "
+              "over model arrays, per-path SMT query against the documented "
+              "formula, replay on a scratch build",
+    design="2/C19")
+
 NOT_APPLICABLE = {
     "C05": "whole-application runs of compiled OpenMP code compared across "
            "configurations up to summation order: no unit a solver can "
